@@ -304,3 +304,10 @@ pub fn remove_censored_exts<K: Kmer, D>(stranded: bool, valid_kmers: &mut [(K, (
         (valid_kmers[idx].1).0 = new_exts;
     }
 }
+
+// Verification hook (guarded, see src/lib.rs): contracts that need this module's private items.
+#[cfg(any(kani, debruijn_verif))]
+#[allow(dead_code, unused_imports, unused_macros, unused_variables, non_snake_case)]
+pub mod verif {
+    include!(concat!(env!("DEBRUIJN_VERIF_DIR"), "/kani/m_filter.rs"));
+}
